@@ -117,6 +117,12 @@ def _numeral(t):
     return None
 
 
+def _constlike(t):
+    if _numeral(t) is not None:
+        return True
+    return z3.is_app(t) and t.decl().kind() == z3.Z3_OP_TO_REAL and _numeral(t.arg(0)) is not None
+
+
 def mk(t):
     """wrap a z3 arithmetic term; numerals become python numbers (keeps terms small)"""
     v = _numeral(t)
@@ -135,7 +141,7 @@ class Sym:
     def __init__(self, t):
         self.shift = None
         # fold constant sub-terms (pinned runs operate on numerals only)
-        if t.num_args() and all(_numeral(c) is not None for c in t.children()):
+        if t.num_args() and all(_constlike(c) for c in t.children()):
             t = z3.simplify(t)
         self.t = t
 
@@ -199,7 +205,7 @@ class Sym:
         c = _const_value(o)
         if c is not None:
             if c == 0:
-                return 0
+                return s._zero()
             if c == 1 and not isinstance(o, (float, _np.floating)):
                 return s
             if c == 1:
@@ -210,11 +216,14 @@ class Sym:
             return NotImplemented if lo is None else lo * s
         return Sym(s.t * ot)
 
+    def _zero(s):
+        return Sym(z3.RealVal(0) if _is_real(s.t) else z3.IntVal(0))
+
     def __rmul__(s, o):
         c = _const_value(o)
         if c is not None:
             if c == 0:
-                return 0
+                return s._zero()
             if c == 1:
                 return s if not isinstance(o, (float, _np.floating)) else Sym(_to_real(s.t))
         ot = s._coerce(o)
@@ -244,7 +253,7 @@ class Sym:
         ENGINE.note_denominator(s.t)
         c = _const_value(o)
         if c is not None and c == 0:
-            return 0
+            return Sym(z3.RealVal(0))
         return Sym(_to_real(ot) / _to_real(s.t))
 
     def __floordiv__(s, o):
@@ -570,10 +579,12 @@ class Engine:
 
     # ---- per run state
     keep_forced = False
+    slicing = True
 
     def _reset_run(self, prefix):
         self.prefix = list(prefix)
         self._npre = len(prefix)
+        self._decided = {}
         self.pos = 0
         self.path = []
         self.side = []
@@ -609,7 +620,7 @@ class Engine:
                 raise NotEncodable("sqrt of negative constant")
             n, d = _math.isqrt(v.numerator), _math.isqrt(v.denominator)
             if n * n == v.numerator and d * d == v.denominator:
-                return Fraction(n, d) if d != 1 else n
+                return Sym(_term(Fraction(n, d)) if d != 1 else z3.RealVal(n))
         key = t.get_id()
         if key in self._sqrt_cache:
             return self._sqrt_cache[key][1]
@@ -655,8 +666,61 @@ class Engine:
             return False
         return None
 
+    # ---- cone-of-influence slicing: a branch condition is checked against the constraints that (transitively) share a
+    # variable with it.  unsat of the slice implies unsat of the whole path (sound pruning); sat of the slice keeps the branch.
+    _vcache = {}
+
+    def _vars(self, t):
+        key = t.get_id()
+        hit = self._vcache.get(key)
+        if hit is not None:
+            return hit[1]
+        out = set()
+        stack = [t]
+        seen = set()
+        while stack:
+            x = stack.pop()
+            i = x.get_id()
+            if i in seen:
+                continue
+            seen.add(i)
+            if z3.is_app(x):
+                if x.num_args() == 0:
+                    if x.decl().kind() == z3.Z3_OP_UNINTERPRETED:
+                        out.add(i)
+                else:
+                    stack.extend(x.children())
+        fs = frozenset(out)
+        self._vcache[key] = (t, fs)
+        return fs
+
+    def _slice(self, cond):
+        cons = list(self.assume) + list(self.path) + list(self.side)
+        vs = [self._vars(c) for c in cons]
+        need = set(self._vars(cond))
+        picked = [False] * len(cons)
+        changed = True
+        while changed:
+            changed = False
+            for i, v in enumerate(vs):
+                if not picked[i] and v & need:
+                    picked[i] = True
+                    if not v <= need:
+                        need |= v
+                        changed = True
+        return [c for c, p in zip(cons, picked) if p]
+
     def _feasible(self, cond):
-        r = self.check_sat([cond])
+        if self.slicing:
+            s = self._solver(self.feas_timeout_ms)
+            s.add(*self._slice(cond))
+            s.add(cond)
+            t = time.time()
+            r = str(s.check())
+            self.stats.solver_calls += 1
+            self.stats.solver_time += time.time() - t
+        else:
+            r = self.check_sat([cond])
         if r == "unknown":
             self.stats.unknown_feas += 1
         return r != "unsat"
@@ -678,6 +742,18 @@ class Engine:
             return True
         if z3.is_false(cond):
             return False
+        # the same condition asked again on this path gets the same answer (no solver, no new prefix entry): real code often
+        # evaluates one mask twice, and an 'unknown' must never let the two evaluations disagree
+        hit = self._decided.get(cond.get_id())
+        if hit is not None:
+            return hit[1]
+        d = self._branch(cond)
+        self._decided[cond.get_id()] = (cond, d)
+        neg = z3.simplify(z3.Not(cond))
+        self._decided[neg.get_id()] = (neg, not d)
+        return d
+
+    def _branch(self, cond):
         if self.pos < len(self.prefix):
             d = self.prefix[self.pos][0]
         else:
